@@ -11,6 +11,7 @@ import (
 	"testing"
 
 	ct "github.com/google/certificate-transparency-go"
+	"github.com/google/certificate-transparency-go/client"
 
 	"verif/harness/lib"
 	"verif/harness/tlsgen"
@@ -48,7 +49,8 @@ type sctVariant struct {
 // sctVariants: field-level classes of a 200 add-chain / add-pre-chain response for the chain
 // that will be submitted; [e] is the entry a correct log signs for it (a stand-in when the
 // chain admits none).
-func sctVariants(r randT, fx *fixtures, signer, foreign *logKey, certs [][]byte, e *entry, other *entry) ([]sctVariant, []byte) {
+func sctVariants(r randT, fx *fixtures, signer, foreign *logKey, ch chainFix, e *entry, other *entry) ([]sctVariant, []byte) {
+	certs := ch.certs
 	ts := pickU64(r)
 	tss := fmt.Sprint(ts)
 	ext := []byte(nil)
@@ -74,7 +76,7 @@ func sctVariants(r randT, fx *fixtures, signer, foreign *logKey, certs [][]byte,
 	if len(certs) > 0 {
 		if e.precert {
 			crossed = &entry{cert: certs[0]}
-		} else if pe := deriveEntry(certs, true); pe != nil {
+		} else if pe := entryOf(ch, true); pe != nil {
 			crossed = pe
 		}
 	}
@@ -117,6 +119,14 @@ func sctVariants(r randT, fx *fixtures, signer, foreign *logKey, certs [][]byte,
 		mk("signature-is-object", "n/a", []byte(`{"sct_version":0,"id":`+id+`,"timestamp":`+tss+`,"extensions":"","signature":{}}`)),
 		mk("trailing-garbage-after-json", "n/a", append(append([]byte{}, good...), []byte(" x")...)),
 		mk("signed-for-same-chain-as-other-entry-type", "key-hash", sctJSON("0", id, tss, "", signer.signDS(rfcSCTInput(ts, crossed, ext), 4))),
+	}
+	// a precertificate entry derived WRONGLY from the submitted chain (by the log, or by a client
+	// whose own derivation would agree with it): another certificate's key hash, a TBSCertificate
+	// not rewritten to the final issuer, ...; genuinely signed by the log's key
+	if e.precert && e == ch.ref {
+		for _, a := range ch.alts {
+			vs = append(vs, mk("signed-over-wrong-entry:"+a.name, "key-hash", sctJSON("0", id, tss, "", signer.signDS(rfcSCTInput(ts, a.e, ext), 4))))
+		}
 	}
 	return vs, good
 }
@@ -167,8 +177,9 @@ type addSpec struct {
 	name     string // response class
 	idClass  string
 	items    []wireItem
-	prefix   string // classes of the retried attempts
+	prefix   string   // classes of the retried attempts
 	sess     *session // nil: a fresh client; else the call is the next one of this session (its key, its clients)
+	multi    *multi   // the call goes to this temporal client with SEVERAL shards (multishard_test.go); key is ignored
 }
 
 func caseAddChain(t *testing.T, sp addSpec) lib.Case {
@@ -182,8 +193,24 @@ func caseAddChain(t *testing.T, sp addSpec) lib.Case {
 		sp.sess.use(sc)
 		sp.key = sp.sess.key
 	}
+	want, headOK := -1, false // multi: the shard whose interval holds NotAfter of the chain head, by the harness's own reading
+	if sp.multi != nil {
+		sp.temporal, sp.key = true, nil
+		sp.multi.useForAll(sc)
+		if len(sp.chain.certs) > 0 {
+			want, headOK = sp.multi.shardFor(sp.chain.certs[0])
+		}
+		if want >= 0 {
+			sp.key = sp.multi.shards[want].key
+		}
+	}
 	if sp.temporal {
-		tlc := sp.sess.temporal(sc, sp.key)
+		var tlc *client.TemporalLogClient
+		if sp.multi != nil {
+			tlc = sp.multi.tlc
+		} else {
+			tlc = sp.sess.temporal(sc, sp.key)
+		}
 		call = func(ctx context.Context) {
 			if sp.precert {
 				sct, err = tlc.AddPreChain(ctx, chain)
@@ -206,7 +233,7 @@ func caseAddChain(t *testing.T, sp addSpec) lib.Case {
 	obs := classify(err, pan, pv, bodies)
 
 	// oracles
-	e := deriveEntry(sp.chain.certs, sp.precert)
+	e := entryOf(sp.chain, sp.precert)
 	x509Coq, preCoq := "None", "None"
 	if e != nil && !e.precert {
 		x509Coq = lib.Some(lib.Bytes(e.cert))
@@ -247,6 +274,27 @@ func caseAddChain(t *testing.T, sp addSpec) lib.Case {
 		}
 		os = append(os, coqAttempt(a, jsonCoq))
 	}
+	// multi: the signature table of every OTHER shard's key (the model is given all the shards)
+	otherValid := map[int][]string{}
+	if sp.multi != nil && e != nil {
+		var sh2 mSCT
+		for _, a := range atts {
+			if !(a.received && a.CloseOK && a.ReadOK && a.Post && a.Status == 200) || json.Unmarshal(a.body, &sh2) != nil {
+				continue
+			}
+			ext, berr := base64.StdEncoding.DecodeString(sh2.Extensions)
+			d, dok := parseDS(sh2.Signature)
+			if berr != nil || !dok || len(ext) > 65535 {
+				continue
+			}
+			msg := rfcSCTInput(sh2.Timestamp, e, ext)
+			for i, sh := range sp.multi.shards {
+				if i != want && sh.key != nil && sh.key.verifyOwn(msg, d) {
+					otherValid[i] = append(otherValid[i], lib.Pair(lib.Bytes(msg), d.coq()))
+				}
+			}
+		}
+	}
 	obsCoq := obs.coq()
 	if obs.Class == "ok" {
 		obsCoq = sctObsCoq(sct)
@@ -262,9 +310,35 @@ func caseAddChain(t *testing.T, sp addSpec) lib.Case {
 		last = &atts[len(atts)-1]
 	}
 	where := fmt.Sprintf("(chain=%s precert=%v response=%s id=%s key=%s)", sp.chain.name, sp.precert, sp.name, sp.idClass, keyName(sp.key))
+	if sp.multi != nil {
+		where = fmt.Sprintf("(%s chain=%s precert=%v response=%s id=%s)", sp.multi.describe(want), sp.chain.name, sp.precert, sp.name, sp.idClass)
+	}
 	ok, note := errorOracle(last, obs, sct == nil)
 	if !ok {
 		note = "add-chain: " + note + " " + where
+	}
+	servedCoq := "None"
+	if sp.multi != nil {
+		hits := sp.multi.hits()
+		got := -1
+		for _, h := range hits {
+			switch {
+			case got == -1 || got == h:
+				got = h
+			default:
+				got = 99 // requests of one call went to several shards
+			}
+		}
+		if got >= 0 {
+			servedCoq = lib.Some(lib.Nn(uint64(got)))
+		}
+		switch {
+		case !ok || !headOK:
+		case want < 0 && (len(hits) > 0 || obs.Class == "ok"):
+			ok, note = false, "add-chain: no shard's interval holds the NotAfter of the chain head, yet a request was made or a result returned "+where
+		case want >= 0 && got >= 0 && got != want:
+			ok, note = false, fmt.Sprintf("add-chain: the chain was submitted to shard %d, not to the shard whose interval holds its NotAfter %s", got, where)
+		}
 	}
 	if ok && obs.Class == "ok" && sp.key != nil {
 		own := e
@@ -300,6 +374,25 @@ func caseAddChain(t *testing.T, sp addSpec) lib.Case {
 	}
 	hist := sp.sess.history()
 	htags := sp.sess.tags()
+	if sp.multi != nil {
+		if !ok {
+			note += sp.multi.after()
+		}
+		hist, htags = sp.multi.history(), sp.multi.tags()
+		sp.multi.did(fmt.Sprintf("add-chain precert=%v %s %s", sp.precert, sp.chain.name, sp.name), obs.Class)
+		coq := fmt.Sprintf("CAddSharded %s %s %s %d%%N %s %s %s %s %s %s", sp.multi.shardsCoq(want, valid, otherValid), sp.multi.notAfterCoq(sp.chain.certs),
+			servedCoq, etype, lib.List(toks), x509Coq, preCoq, lib.List(heads), lib.List(os), obsCoq)
+		return lib.Case{
+			Coq: coq,
+			Input: map[string]interface{}{"method": "AddChain", "precert": sp.precert, "temporal": true, "shards": sp.multi.shardsJSON(), "chain": sp.chain.name,
+				"expected_shard": want, "requests_went_to": sp.multi.hits(), "response": sp.name, "id": sp.idClass, "script": sc.items, "attempts": atts, "history": hist},
+			Impl:   obs,
+			PropOK: ok, Note: note,
+			Tags: append([]string{"method:AddChain", fmt.Sprintf("add-chain:precert=%v:temporal=sharded", sp.precert), "add-chain:chain=" + sp.chain.name,
+				"add-chain:response=" + sp.name, fmt.Sprintf("sharded:add:shards=%d:expected=%d", len(sp.multi.shards), want), "sharded:add:" + sp.name + ":" + obs.Class,
+				"result:" + obs.Class}, htags...),
+		}
+	}
 	if sp.sess != nil {
 		ep := "add-chain "
 		if sp.precert {
@@ -325,9 +418,9 @@ func caseAddChain(t *testing.T, sp addSpec) lib.Case {
 
 func standIn(fx *fixtures, precert bool) *entry {
 	if precert {
-		return deriveEntry(fx.chain("pre-3").certs, true)
+		return entryOf(fx.chain("pre-3"), true)
 	}
-	return deriveEntry(fx.chain("x509-3").certs, false)
+	return entryOf(fx.chain("x509-3"), false)
 }
 
 func genAddChain(t *testing.T, r randT, w *lib.Writer, fx *fixtures, configs []*logKey, rep int) {
@@ -336,7 +429,7 @@ func genAddChain(t *testing.T, r randT, w *lib.Writer, fx *fixtures, configs []*
 		precert bool
 	}
 	subs := []sub{{"x509-3", false}, {"pre-3", true}, {"pre-preissuer", true}, {"x509-1", false}}
-	other := deriveEntry(fx.chain("x509-other").certs, false)
+	other := entryOf(fx.chain("x509-other"), false)
 	for ci, key := range configs {
 		signer, foreign := fx.keys[ci%2], fx.foreign[ci%2]
 		if key != nil {
@@ -348,8 +441,8 @@ func genAddChain(t *testing.T, r randT, w *lib.Writer, fx *fixtures, configs []*
 				continue
 			}
 			ch := fx.chain(s.chain)
-			e := deriveEntry(ch.certs, s.precert)
-			vs, good := sctVariants(r, fx, signer, foreign, ch.certs, e, other)
+			e := entryOf(ch, s.precert)
+			vs, good := sctVariants(r, fx, signer, foreign, ch, e, other)
 			for _, v := range vs {
 				w.Add(caseAddChain(t, addSpec{key: key, usePEM: r.Intn(2) == 0, temporal: r.Intn(6) == 0, precert: s.precert, chain: ch,
 					name: v.name, idClass: v.idClass, items: v.items}))
@@ -399,17 +492,19 @@ func genAddChain(t *testing.T, r randT, w *lib.Writer, fx *fixtures, configs []*
 				picks = []chainFix{cands[r.Intn(len(cands))]}
 			}
 			for _, ch := range picks {
-				e := deriveEntry(ch.certs, precert)
+				e := entryOf(ch, precert)
 				if e == nil {
 					panic("c12: no entry derived from " + ch.name)
 				}
-				vs, _ := sctVariants(r, fx, signer, foreign, ch.certs, e, other)
+				vs, _ := sctVariants(r, fx, signer, foreign, ch, e, other)
 				for _, v := range vs {
 					switch v.name {
 					case "valid", "valid-with-extensions", "foreign-signature", "timestamp-changed", "signed-for-another-chain",
 						"signed-for-same-chain-as-other-entry-type", "id-wrong-32-bytes":
 					default:
-						continue
+						if !strings.HasPrefix(v.name, "signed-over-wrong-entry:") {
+							continue
+						}
 					}
 					w.Add(caseAddChain(t, addSpec{key: key, usePEM: r.Intn(2) == 0, temporal: v.name == "timestamp-changed", precert: precert, chain: ch,
 						name: v.name, idClass: v.idClass, items: v.items}))
@@ -420,15 +515,44 @@ func genAddChain(t *testing.T, r randT, w *lib.Writer, fx *fixtures, configs []*
 				}
 			}
 		}
+		// 5. chains through a Precertificate Signing Certificate (chain[1] carries the CT extended key
+		// usage, the CA that issues the final certificate is chain[2]), on the plain and on the temporal
+		// client: the log signs over the HAND-MADE entry of the chain (chainFix.ref), and over every wrong
+		// entry a faulty derivation would come to (chainFix.alts: the signing certificate's key hash, a
+		// TBSCertificate not rewritten to the final issuer, ...), each a genuine signature of the log's key
+		for pi, ch := range fx.preIssuerChains() {
+			e := entryOf(ch, true)
+			if e == nil {
+				e = ch.ref // the client cannot derive an entry: nothing may be accepted
+			}
+			vs, _ := sctVariants(r, fx, signer, foreign, ch, e, other)
+			for vi, v := range vs {
+				switch v.name {
+				case "valid", "valid-with-extensions", "foreign-signature", "timestamp-changed", "signed-for-another-chain",
+					"signed-for-same-chain-as-other-entry-type", "signed-for-other-entry-type", "id-of-foreign-key":
+				default:
+					if !strings.HasPrefix(v.name, "signed-over-wrong-entry:") {
+						continue
+					}
+				}
+				for ti, temporal := range []bool{false, true} {
+					if lib.Tier() == "quick" && (rep+ci+pi+vi+ti)%2 == 1 && v.name != "valid" {
+						continue
+					}
+					w.Add(caseAddChain(t, addSpec{key: key, usePEM: r.Intn(2) == 0, temporal: temporal, precert: true, chain: ch,
+						name: v.name, idClass: v.idClass, items: v.items}))
+				}
+			}
+		}
 		// 3. chains from which no entry can be derived, with a response that is otherwise good
 		bads := []sub{{"empty", false}, {"empty", true}, {"garbage", false}, {"garbage", true}, {"pre-noissuer", true}, {"x509-3", true}, {"pre-3", false}}
 		for _, s := range bads {
 			ch := fx.chain(s.chain)
-			e := deriveEntry(ch.certs, s.precert)
+			e := entryOf(ch, s.precert)
 			if e == nil {
 				e = standIn(fx, s.precert)
 			}
-			vs, _ := sctVariants(r, fx, signer, foreign, ch.certs, e, other)
+			vs, _ := sctVariants(r, fx, signer, foreign, ch, e, other)
 			for _, v := range []sctVariant{vs[0], vs[3], vs[15], {variant{"500", []wireItem{resp(500, []byte(htmlPage), "500")}}, "n/a"}} {
 				for _, temporal := range []bool{false, true} {
 					w.Add(caseAddChain(t, addSpec{key: key, usePEM: true, temporal: temporal, precert: s.precert, chain: ch,
